@@ -1012,7 +1012,9 @@ class Gridder(GeospatialGrid):
             subsegment_distance_fractions = np.divide(
                 subsegment_distances,
                 segment_distances_repeated,
-                out=np.zeros_like(subsegment_distances),
+                # A zero-length segment (repeated point) has exactly one
+                # sub-segment, which gets the whole of the segment's quantities.
+                out=np.ones_like(subsegment_distances),
                 where=segment_distances_repeated != 0,
             )
 
